@@ -649,7 +649,7 @@ def evaluate_policy(out: OutputBuffer, aconf: AuditConf, banner: Optional['Banne
                 else:
                     host = '%s:%d' % (aconf.host, aconf.port)
 
-            out.info("Host:   %s" % host)
+            out.info("Host:   %s" % host, always_print=True)  # Like the "(gen) target:" line of the standard report: with -l warn or -l fail the report still says which target it is about.
         out.info("Policy: %s%s" % (spacing, aconf.policy.get_name_and_version()))
         out.info("Result: %s" % spacing, line_ended=False)
 
